@@ -361,10 +361,27 @@ def _legend_from_same_table(ctx, pms_raw, sv) -> bool:
             cur = par.get(cur)
         if var is None:
             continue
+        # local aliases and one-expression accessors (`color = palette.colors[j]`, `palette.color(j)`) spelt out
+        bc, pc = ctx.norm.xexpr(F, bc), ctx.norm.xexpr(F, pc)
         bt = re.sub(r"(?<![A-Za-z0-9_.])[A-Za-z_][A-Za-z0-9_]*\.job_id(?![A-Za-z0-9_])", "$J", ast.unparse(bc))
         pt = re.sub(r"(?<![A-Za-z0-9_.])" + re.escape(var) + r"(?![A-Za-z0-9_])", "$J", ast.unparse(pc))
         if "$J" in bt and bt == pt:
             return True
+        # two tables built by the same helper from the same arguments (the helper inlined twice:
+        # `colors` and `colors__i7`): equal when every definition of the one reads like the other's
+        strip = lambda t: re.sub(r"__[a-z]\d+(?![A-Za-z0-9_])", "", t)  # noqa: E731
+        if "$J" in bt and strip(bt) == strip(pt) and isinstance(bc, ast.Subscript) and isinstance(pc, ast.Subscript) \
+                and isinstance(bc.value, ast.Name) and isinstance(pc.value, ast.Name):
+            def defs_of(name):
+                out = []
+                for st in own_nodes(F.node):
+                    if isinstance(st, ast.Assign) and len(st.targets) == 1 and isinstance(st.targets[0], ast.Name) and st.targets[0].id == name:
+                        out.append(strip(ctx.norm.xtext(F, st.value)))
+                return sorted(out)
+
+            da, db = defs_of(bc.value.id), defs_of(pc.value.id)
+            if da and da == db:
+                return True
     return False
 
 
